@@ -85,6 +85,8 @@ class Tail:
             return env.get(e.id)
         if isinstance(e, ast.Attribute) and e.attr == 'real':
             return self.ev(e.value, env)
+        if isinstance(e, ast.Call) and norm(e.func) == 'np.real' and len(e.args) == 1 and not e.keywords:
+            return self.ev(e.args[0], env)
         if isinstance(e, ast.Subscript) and isinstance(e.value, ast.Name) and e.value.id == self.tname:
             idx = e.slice.elts if isinstance(e.slice, ast.Tuple) else [e.slice]
             if len(idx) == self.rank and all(isinstance(x, ast.Constant) and x.value == 0 for x in idx):
@@ -187,6 +189,24 @@ class Tail:
         if norm(v) == b:
             return ONE
         return None
+
+
+def under_facts(m, facts):
+    """a path that knows the sign of T knows |T|: with T < 0 (or <= 0) |T| = -T, with T >= 0 (or > 0) |T| = T"""
+    if m is None or m.b.denominator != 1:
+        return m
+    for fm, rel in facts:
+        if fm is None:
+            continue
+        sgn = None
+        if fm == TT:
+            sgn = -1 if rel in ('<0', '<=0') else 1
+        elif fm == TT.neg():
+            sgn = 1 if rel in ('<0', '<=0') else -1
+        if sgn is not None:
+            b = int(m.b)
+            return Mono(m.s * (sgn ** abs(b)), m.a + b, 0)
+    return m
 
 
 def sign_nonneg(m, facts):
